@@ -480,8 +480,10 @@ pub fn gen_case(rng: &mut Rng, k: usize, order: Option<(Vec<usize>, u32)>) -> Ca
             }
         }
     }
+    // long chains: mostly without channels, so that many hops are traversed within one event
+    let (num, den) = if k > 16 && rng.chance(2, 3) { (1, 15) } else { (1, 2) };
     let hops: Vec<Hop> = (0..k)
-        .map(|_| Hop { channel: if rng.chance(1, 2) { Some((*rng.pick(BITRATES), *rng.pick(LATS))) } else { None } })
+        .map(|_| Hop { channel: if rng.chance(num, den) { Some((*rng.pick(BITRATES), *rng.pick(LATS))) } else { None } })
         .collect();
     let (perm, orient) = match order {
         Some(o) => o,
@@ -552,10 +554,12 @@ pub fn cmd(args: &Args) -> Report {
             gen_case(&mut rng, k, Some((perm, o)))
         } else if i < cases {
             i += 1;
-            let k = match rng.below(10) {
+            let k = match rng.below(12) {
                 0..=5 => 1 + rng.usize_below(6),
                 6..=8 => 5 + rng.usize_below(8),
-                _ => 10 + rng.usize_below(11),
+                9..=10 => 10 + rng.usize_below(11),
+                // "chains of any length"
+                _ => 17 + rng.usize_below(34),
             };
             gen_case(&mut rng, k, None)
         } else {
@@ -572,6 +576,17 @@ pub fn cmd(args: &Args) -> Report {
         rep.count("sends_by_a_third_module_through_a_gate_reference", obs.proxy_sends);
         rep.count("hops_total", case.hops.len() as u64);
         rep.max("max_hops", case.hops.len() as u64);
+        // longest run of hops without a channel (all of them are traversed within one event)
+        let mut run = 0u64;
+        let mut best = 0u64;
+        for h in &case.hops {
+            run = if h.channel.is_none() { run + 1 } else { 0 };
+            best = best.max(run);
+        }
+        rep.max("max_consecutive_hops_without_channel", best);
+        if best > 16 {
+            rep.count("chains_with_more_than_16_consecutive_hops_without_channel", 1);
+        }
         if case.hops.iter().any(|h| h.channel.is_some()) {
             rep.count("chains_with_channels", 1);
         }
